@@ -14,7 +14,8 @@ func init() {
 		id:         "C19",
 		title:      "match selects the first matching case, binds pattern names, yields its value",
 		run:        runC19,
-		decided:    "a `no match` verdict for a case is only issued after every alternative was tried (no `return false, nil` inside the alternatives loop); cases are tried in slice order and the first matching case returns before any later case is looked at; the no-match exit yields null; bindings are stored into a freshly pushed frame before the body is evaluated; the pattern table: literal -> Compare == 0 with the subject as receiver, identifier -> bind the subject, array -> tag and length test then element-wise recursion, anything else -> error; an expression body yields the body's value, a block body null.",
+		decided:    "a `no match` verdict for a case is only issued after every alternative was tried (no `return false, nil` inside the alternatives loop); cases are tried in slice order and the first matching case returns before any later case is looked at; the no-match exit yields null; bindings are stored into a freshly pushed frame before the body is evaluated; the pattern table: literal -> subject.Equals(literal), identifier -> bind the subject, array -> tag and length test then element-wise recursion, anything else -> error; an expression body yields the body's value, a block body null." +
+			" A successfully evaluated literal is always compared, by Value.Equals; the binding map returned with a match is made for the alternative that matched; a `{ … }` body reaches the evaluator as the block itself.",
 		notDecided: "Compare semantics (C05); that bindings of a failed alternative are discarded is implied by the fresh map per alternative, which is checked, not the values bound.",
 	})
 }
@@ -356,7 +357,7 @@ func matchBodyResults(p *Program, ee *ssa.Function, arm *typeCase, matched *ssa.
 // R4 pattern-table
 func c19R4(c *Ctx, matcher *ssa.Function, patterns *ssa.Parameter, loop rangeLoop) {
 	p := c.P
-	c.note("R4 pattern-table: per pattern node type in the matcher — *ExprLiteral: Compare with the subject as receiver and the literal as argument, match iff == 0; *ExprIdentifier: a fresh map binding the identifier's text to the subject, verdict true; *ExprArray: subject tag == array and equal lengths else no match, element-wise recursion on (element i, pattern i), verdict true only after the element loop; any other node type: error.")
+	c.note("R4 pattern-table: per pattern node type in the matcher — *ExprLiteral: subject.Equals(literal) (the == relation: unset equals nothing, otherwise Compare == 0), reached whenever the literal evaluated without error, match iff true; *ExprIdentifier: a fresh map binding the identifier's text to the subject, verdict true; *ExprArray: subject tag == array and equal lengths else no match, element-wise recursion on (element i, pattern i), verdict true only after the element loop; any other node type: error.")
 	// the pattern element value: load of &patterns[i]
 	var elem ssa.Value
 	allInstrs(matcher, func(in ssa.Instruction) {
